@@ -1,4 +1,498 @@
-(* C03 — lemmas. *)
-From V.C03 Require Import Model Spec.
+(* C03 — lemmas behind Properties.v. *)
+From Coq Require Import ZArith Bool String List Lia Floats.
+From V.C03 Require Import Model Spec ProofsFloat ProofsPow.
+Open Scope Z_scope.
+
 Lemma table_matches_model_l : forall lib v i, implements (ty_of v) i = has_conv lib v i.
 Proof. intros lib v i; destruct v, i; try reflexivity; cbn; destruct (parse_float lib s); reflexivity. Qed.
+
+(* ------------------------------------------------------------------ one truthiness *)
+Lemma truthy_one_l : forall lib c v, ctx_eval lib c v = CB (ref_truthy v).
+Proof.
+  intros lib c v; destruct c, v; cbn; unfold fzero; try reflexivity;
+    try (rewrite negb_involutive; reflexivity);
+    try (destruct s; reflexivity); try (destruct items; reflexivity);
+    try (match goal with |- of_outcome (if ?x then _ else _) = _ => destruct x; reflexivity end).
+Qed.
+
+(* ------------------------------------------------------------------ comparisons are total *)
+Lemma eq_body_bool : forall lib n l r, exists b, eq_body lib n l r = Val (VBool (if n then negb b else b)).
+Proof.
+  intros lib n l r. unfold eq_body.
+  destruct l.
+  - destruct r; try (exists false; destruct n; reflexivity). exists true; destruct n; reflexivity.
+  - destruct r; cbn; eexists; reflexivity.
+  - destruct r; cbn; try (eexists; reflexivity); exists false; destruct n; reflexivity.
+  - destruct r; cbn; try (eexists; reflexivity); try (exists false; destruct n; reflexivity).
+    destruct (parse_float lib s); [eexists; reflexivity | exists false; destruct n; reflexivity].
+  - eexists; reflexivity.
+  - exists false; destruct n; reflexivity.
+  - exists false; destruct n; reflexivity.
+  - exists false; destruct n; reflexivity.
+Qed.
+
+Lemma eq_ne_compl_l : forall lib same l r, exists b,
+  eq lib same l r = Val (VBool b) /\ ne lib same l r = Val (VBool (negb b)).
+Proof.
+  intros lib same l r; unfold eq, ne.
+  destruct (same && negb (is_nan_value l)).
+  - exists true; split; reflexivity.
+  - (* the two bodies differ only in the `ne` flag *)
+    unfold eq_body.
+    destruct l.
+    + destruct r; try (exists false; split; reflexivity). exists true; split; reflexivity.
+    + destruct r; cbn; eexists; split; reflexivity.
+    + destruct r; cbn; try (eexists; split; reflexivity).
+    + destruct r; cbn; try (eexists; split; reflexivity).
+      destruct (parse_float lib s); eexists; split; reflexivity.
+    + eexists; split; reflexivity.
+    + exists false; split; reflexivity.
+    + exists false; split; reflexivity.
+    + exists false; split; reflexivity.
+Qed.
+
+Lemma seq_sne_compl_l : forall l r, exists b, seq l r = Val (VBool b) /\ sne l r = Val (VBool (negb b)).
+Proof. intros l r; exists (strict_equal l r); split; reflexivity. Qed.
+
+Lemma rel_bool_l : forall lib o l r, exists b, rel lib o l r = Val (VBool b).
+Proof.
+  intros lib o l r; unfold rel. destruct l.
+  - destruct o, r; eexists; reflexivity.
+  - destruct r; eexists; reflexivity.
+  - destruct r; cbn; eexists; reflexivity.
+  - destruct r; cbn; try (eexists; reflexivity). destruct (parse_float lib s); eexists; reflexivity.
+  - eexists; reflexivity.
+  - eexists; reflexivity.
+  - eexists; reflexivity.
+  - eexists; reflexivity.
+Qed.
+
+(* ------------------------------------------------------------------ == symmetric off the known pairs *)
+Lemma eq_sym_partial_l : forall lib same l r,
+  eq_sym_known (ty_of l) (ty_of r) = false -> (same = true -> l = r) ->
+  eq lib same l r = eq lib same r l.
+Proof.
+  intros lib same l r Hk Hs. destruct same.
+  - rewrite (Hs eq_refl). reflexivity.
+  - unfold eq; cbn [andb]. unfold eq_body.
+    destruct l, r; cbn in Hk; try discriminate; cbn; try reflexivity.
+    + destruct b, b0; reflexivity.
+    + rewrite Z.eqb_sym. reflexivity.
+    + rewrite feq_sym. reflexivity.
+    + rewrite feq_sym. reflexivity.
+    + rewrite feq_sym. reflexivity.
+    + rewrite String.eqb_sym. reflexivity.
+Qed.
+
+(* ------------------------------------------------------------------ <=> agrees with < and > *)
+Lemma law_sign3 : forall lt gt : bool, (lt = true -> gt = false) ->
+  Bool.eqb (sign3 lt gt <? 0) lt && Bool.eqb (0 <? sign3 lt gt) gt = true.
+Proof. intros [|] [|] H; try reflexivity. specialize (H eq_refl); discriminate. Qed.
+
+Lemma str_lt_antisym : forall a b, String.ltb a b = true -> String.ltb b a = false.
+Proof.
+  intros a b; unfold String.ltb. rewrite (String.compare_antisym a b).
+  destruct (String.compare b a); simpl; congruence.
+Qed.
+
+Lemma cmp_lt_gt_partial_l : forall lib l r,
+  cmp_known (ty_of l) (ty_of r) = false ->
+  law_cmp (cmp l r) (rel lib RLt l r) (rel lib RGt l r) = true.
+Proof.
+  intros lib l r Hk.
+  destruct l, r; cbn in Hk; try discriminate; cbn -[sign3]; try reflexivity.
+  - (* bool, bool *) destruct b, b0; reflexivity.
+  - (* int, int *) apply law_sign3. rewrite Z.ltb_lt, Z.gtb_ltb, Z.ltb_ge. lia.
+  - (* int, float *) apply law_sign3. apply flt_antisym.
+  - (* float, int *) apply law_sign3. apply flt_antisym.
+  - (* float, float *) apply law_sign3. apply flt_antisym.
+  - (* str, str *) apply law_sign3. apply str_lt_antisym.
+Qed.
+
+(* ------------------------------------------------------------------ model = reference on D *)
+Lemma as_bool_truthy : forall v, as_bool v = Conv (ref_truthy v).
+Proof. destruct v; cbn; unfold fzero; try reflexivity. destruct items; reflexivity. Qed.
+
+Lemma z_eqb_cmp : forall a b, (a =? b) = is_c Eq (Some (a ?= b)).
+Proof. intros a b; destruct (Z.compare_spec a b); subst; simpl;
+  [apply Z.eqb_refl | apply Z.eqb_neq; lia | apply Z.eqb_neq; lia]. Qed.
+Lemma z_ltb_cmp : forall a b, (a <? b) = is_c Lt (Some (a ?= b)).
+Proof. intros a b; unfold Z.ltb; destruct (a ?= b); reflexivity. Qed.
+Lemma z_leb_cmp : forall a b, (a <=? b) = is_c Lt (Some (a ?= b)) || is_c Eq (Some (a ?= b)).
+Proof. intros a b; unfold Z.leb; destruct (a ?= b); reflexivity. Qed.
+Lemma z_gtb_cmp : forall a b, (a >? b) = is_c Gt (Some (a ?= b)).
+Proof. intros a b; unfold Z.gtb; destruct (a ?= b); reflexivity. Qed.
+Lemma z_geb_cmp : forall a b, (a >=? b) = is_c Gt (Some (a ?= b)) || is_c Eq (Some (a ?= b)).
+Proof. intros a b; unfold Z.geb; destruct (a ?= b); reflexivity. Qed.
+Lemma z_sign3_cmp : forall a b,
+  sign3 (a <? b) (a >? b) = match a ?= b with Lt => -1 | Gt => 1 | Eq => 0 end.
+Proof. intros a b; unfold Z.ltb, Z.gtb; destruct (a ?= b); reflexivity. Qed.
+
+Lemma str_compare_refl : forall a, String.compare a a = Eq.
+Proof. intro a. pose proof (String.compare_antisym a a) as H. destruct (String.compare a a); simpl in H; congruence. Qed.
+Lemma s_eqb_cmp : forall a b, String.eqb a b = is_c Eq (Some (String.compare a b)).
+Proof.
+  intros a b. destruct (String.eqb a b) eqn:E.
+  - apply String.eqb_eq in E; subst. rewrite str_compare_refl. reflexivity.
+  - apply String.eqb_neq in E. destruct (String.compare a b) eqn:C; try reflexivity.
+    apply String.compare_eq_iff in C. contradiction.
+Qed.
+Lemma s_ltb_cmp : forall a b, String.ltb a b = is_c Lt (Some (String.compare a b)).
+Proof. intros a b; unfold String.ltb; destruct (String.compare a b); reflexivity. Qed.
+Lemma s_leb_cmp : forall a b, String.leb a b = is_c Lt (Some (String.compare a b)) || is_c Eq (Some (String.compare a b)).
+Proof. intros a b; unfold String.leb; destruct (String.compare a b); reflexivity. Qed.
+Lemma s_gtb_cmp : forall a b, String.ltb b a = is_c Gt (Some (String.compare a b)).
+Proof. intros a b; unfold String.ltb; rewrite (String.compare_antisym a b); destruct (String.compare b a); reflexivity. Qed.
+Lemma s_geb_cmp : forall a b, String.leb b a = is_c Gt (Some (String.compare a b)) || is_c Eq (Some (String.compare a b)).
+Proof. intros a b; unfold String.leb; rewrite (String.compare_antisym a b); destruct (String.compare b a); reflexivity. Qed.
+Lemma s_sign3_cmp : forall a b,
+  sign3 (String.ltb a b) (String.ltb b a) = match String.compare a b with Lt => -1 | Gt => 1 | Eq => 0 end.
+Proof. intros a b; rewrite s_ltb_cmp, s_gtb_cmp; destruct (String.compare a b); reflexivity. Qed.
+Lemma f_sign3_cmp : forall a b,
+  compare_floats a b = match fcmp a b with Some Lt => -1 | Some Gt => 1 | _ => 0 end.
+Proof. intros a b; unfold compare_floats; rewrite flt_fcmp, fgt_fcmp; destruct (fcmp a b) as [[| |]|]; reflexivity. Qed.
+
+(* ref_cmp on equal operands that are not NaN *)
+Lemma ref_cmp_refl : forall v, same_kind_scalar v v = true -> is_nan_value v = false ->
+  is_c Eq (ref_cmp v v) = true.
+Proof.
+  intros v Hs Hn; destruct v; try discriminate; cbn.
+  - reflexivity.
+  - destruct b; reflexivity.
+  - rewrite Z.compare_refl. reflexivity.
+  - cbn in Hn. apply negb_false_iff in Hn. rewrite (feq_refl_fcmp f Hn). reflexivity.
+  - rewrite str_compare_refl. reflexivity.
+Qed.
+
+Lemma eq_ref_on_D : forall lib n same l r,
+  (same_kind_scalar l r || (numeric l && numeric r)) = true -> (same = true -> l = r) ->
+  (if same && negb (is_nan_value l) then Val (VBool (negb n)) else eq_body lib n l r)
+  = rb (if n then negb (is_c Eq (ref_cmp l r)) else is_c Eq (ref_cmp l r)).
+Proof.
+  intros lib n same l r HD Hs.
+  destruct (same && negb (is_nan_value l)) eqn:E.
+  - apply andb_true_iff in E. destruct E as [E1 E2]. specialize (Hs E1); subst r.
+    apply negb_true_iff in E2.
+    assert (Hk : same_kind_scalar l l = true) by (destruct l; try discriminate; reflexivity).
+    rewrite (ref_cmp_refl l Hk E2). destruct n; reflexivity.
+  - clear E Hs same. unfold eq_body, rb.
+    destruct l, r; try discriminate; cbn.
+    + destruct n; reflexivity.
+    + destruct b, b0, n; reflexivity.
+    + rewrite z_eqb_cmp. destruct n; reflexivity.
+    + rewrite feq_fcmp. destruct n; reflexivity.
+    + rewrite feq_fcmp. destruct n; reflexivity.
+    + rewrite feq_fcmp. destruct n; reflexivity.
+    + rewrite s_eqb_cmp. destruct n; reflexivity.
+Qed.
+
+Lemma wf_int : forall z, wf (VInt z) = true -> in_range z = true.
+Proof. intros z H; exact H. Qed.
+
+Lemma rel_ref_on_D : forall lib o l r,
+  (same_kind_scalar l r || (numeric l && numeric r)) = true ->
+  rel lib o l r =
+  rb (match o with
+      | RLt => is_c Lt (ref_cmp l r)
+      | RLe => is_c Lt (ref_cmp l r) || is_c Eq (ref_cmp l r)
+      | RGt => is_c Gt (ref_cmp l r)
+      | RGe => is_c Gt (ref_cmp l r) || is_c Eq (ref_cmp l r)
+      end).
+Proof.
+  intros lib o l r HD. unfold rel, rb.
+  destruct l, r; try discriminate; cbn.
+  - destruct o; reflexivity.
+  - destruct o, b, b0; reflexivity.
+  - destruct o; cbn; [rewrite z_ltb_cmp | rewrite z_leb_cmp | rewrite z_gtb_cmp | rewrite z_geb_cmp]; reflexivity.
+  - destruct o; cbn; [rewrite flt_fcmp | rewrite fle_fcmp | rewrite fgt_fcmp | rewrite fge_fcmp]; reflexivity.
+  - destruct o; cbn; [rewrite flt_fcmp | rewrite fle_fcmp | rewrite fgt_fcmp | rewrite fge_fcmp]; reflexivity.
+  - destruct o; cbn; [rewrite flt_fcmp | rewrite fle_fcmp | rewrite fgt_fcmp | rewrite fge_fcmp]; reflexivity.
+  - destruct o; cbn; [rewrite s_ltb_cmp | rewrite s_leb_cmp | rewrite s_gtb_cmp | rewrite s_geb_cmp]; reflexivity.
+Qed.
+
+Lemma strict_ref_on_D : forall l r,
+  (same_kind_scalar l r || (numeric l && numeric r)) = true ->
+  strict_equal l r = ty_eqb (ty_of l) (ty_of r) && is_c Eq (ref_cmp l r).
+Proof.
+  intros l r HD; destruct l, r; try discriminate; cbn; try reflexivity.
+  - destruct b, b0; reflexivity.
+  - apply z_eqb_cmp.
+  - apply feq_fcmp.
+  - apply s_eqb_cmp.
+Qed.
+
+Lemma cmp_ref_on_D : forall l r,
+  (same_kind_scalar l r || (numeric l && numeric r)) = true ->
+  cmp l r = Val (VInt (match ref_cmp l r with Some Lt => -1 | Some Gt => 1 | _ => 0 end)).
+Proof.
+  intros l r HD; destruct l, r; try discriminate; cbn -[sign3 compare_floats]; try reflexivity.
+  - destruct b, b0; reflexivity.
+  - rewrite z_sign3_cmp. destruct (z ?= z0); reflexivity.
+  - rewrite f_sign3_cmp. reflexivity.
+  - rewrite f_sign3_cmp. reflexivity.
+  - rewrite f_sign3_cmp. reflexivity.
+  - rewrite s_sign3_cmp. destruct (String.compare s s0); reflexivity.
+Qed.
+
+Lemma pow_ref_on_D : forall lib l r, numeric l && numeric r = true -> wf l = true -> wf r = true ->
+  pow lib l r = ref_binop lib OPow l r.
+Proof.
+  intros lib l r HD Hl Hr. unfold pow, ref_binop.
+  destruct l, r; try discriminate; cbn -[int_pow pow_fits zpow]; try reflexivity.
+  rewrite Z.geb_leb. destruct (0 <=? z0) eqn:E; [|reflexivity].
+  apply Z.leb_le in E. rewrite (int_pow_correct z z0 (wf_int z Hl) E).
+  destruct (pow_fits z z0); reflexivity.
+Qed.
+
+Lemma shl_ref_on_D : forall lib l r, numeric l && numeric r = true ->
+  shl l r = ref_binop lib OShl l r.
+Proof.
+  intros lib l r HD. unfold shl, ref_binop, opd_int.
+  assert (Hl : as_int l = Conv (toi l)) by (destruct l; try discriminate; reflexivity).
+  assert (Hr : as_int r = Conv (toi r)) by (destruct l, r; try discriminate; reflexivity).
+  rewrite Hl, Hr. destruct (toi r <? 0) eqn:E; [reflexivity|].
+  apply Z.ltb_ge in E. rewrite Z.geb_leb. rewrite Z.shiftl_mul_pow2 by exact E. reflexivity.
+Qed.
+Lemma shr_ref_on_D : forall lib l r, numeric l && numeric r = true ->
+  shr l r = ref_binop lib OShr l r.
+Proof.
+  intros lib l r HD. unfold shr, ref_binop, opd_int.
+  assert (Hl : as_int l = Conv (toi l)) by (destruct l; try discriminate; reflexivity).
+  assert (Hr : as_int r = Conv (toi r)) by (destruct l, r; try discriminate; reflexivity).
+  rewrite Hl, Hr. destruct (toi r <? 0) eqn:E; [reflexivity|].
+  apply Z.ltb_ge in E. rewrite Z.shiftr_div_pow2 by lia. reflexivity.
+Qed.
+
+Lemma model_is_ref_on_D_l : forall lib o same l r,
+  inD o l r = true -> wf l = true -> wf r = true -> (same = true -> l = r) ->
+  binop_eval lib same o l r = ref_binop lib o l r.
+Proof.
+  intros lib o same l r HD Hl Hr Hs.
+  destruct o; cbn [binop_eval inD] in *.
+  - (* + *) destruct l, r; try discriminate; reflexivity.
+  - (* - *) destruct l, r; try discriminate; reflexivity.
+  - (* * *) destruct l, r; try discriminate; reflexivity.
+  - (* / *) destruct l, r; try discriminate; reflexivity.
+  - (* % *) destruct l, r; try discriminate; reflexivity.
+  - (* ** *) apply pow_ref_on_D; assumption.
+  - destruct l, r; try discriminate; reflexivity.
+  - destruct l, r; try discriminate; reflexivity.
+  - destruct l, r; try discriminate; reflexivity.
+  - apply shl_ref_on_D; assumption.
+  - apply shr_ref_on_D; assumption.
+  - (* == *) exact (eq_ref_on_D lib false same l r HD Hs).
+  - (* != *) exact (eq_ref_on_D lib true same l r HD Hs).
+  - (* === *) unfold seq. rewrite (strict_ref_on_D l r HD). reflexivity.
+  - (* !== *) unfold sne. rewrite (strict_ref_on_D l r HD). reflexivity.
+  - rewrite (rel_ref_on_D lib RLt l r HD). reflexivity.
+  - rewrite (rel_ref_on_D lib RLe l r HD). reflexivity.
+  - rewrite (rel_ref_on_D lib RGt l r HD). reflexivity.
+  - rewrite (rel_ref_on_D lib RGe l r HD). reflexivity.
+  - apply cmp_ref_on_D; assumption.
+  - (* && *) unfold logic_and. rewrite !as_bool_truthy. unfold ref_binop, rb.
+    destruct (ref_truthy l); reflexivity.
+  - (* || *) unfold logic_or. rewrite !as_bool_truthy. unfold ref_binop, rb.
+    destruct (ref_truthy l); reflexivity.
+  - (* . *) destruct l, r; try discriminate; reflexivity.
+Qed.
+
+Lemma unop_is_ref_on_D_l : forall lib o v, inD1 o v = true -> unop_eval lib o v = ref_unop o v.
+Proof.
+  intros lib o v HD; destruct o; cbn in HD.
+  - destruct v; try discriminate; reflexivity.
+  - unfold unop_eval. rewrite as_bool_truthy. reflexivity.
+  - destruct v; try discriminate; cbn; unfold Z.lnot; do 2 f_equal; lia.
+Qed.
+
+(* ------------------------------------------------------------------ '/' always float; division by zero *)
+Lemma quo_is_float_l : forall lib l r v, quo lib l r = Val v -> exists f, v = VFloat f.
+Proof.
+  intros lib l r v; unfold quo, opd_float.
+  destruct l; try discriminate.
+  - destruct (as_float lib r) as [| |rf].
+    + destruct (as_int r) as [| |ri]; try discriminate.
+      destruct (ri =? 0); try discriminate. intro H; injection H as <-; eexists; reflexivity.
+    + discriminate.
+    + destruct (feq rf fzero); try discriminate. intro H; injection H as <-; eexists; reflexivity.
+  - destruct (as_float lib r) as [| |rf]; try discriminate.
+    destruct (feq rf fzero); try discriminate. intro H; injection H as <-; eexists; reflexivity.
+Qed.
+
+Lemma div_zero_throws_l : forall lib l r, numeric l = true -> numeric r = true ->
+  (PrimFloat.eqb (tof r) 0%float = true -> quo lib l r = Throw) /\
+  (toi r = 0 -> rem l r = Throw).
+Proof.
+  intros lib l r Hl Hr; split; intro H.
+  - destruct l, r; try discriminate; cbn in *; unfold feq, fzero; rewrite H; reflexivity.
+  - destruct l, r; try discriminate; cbn in *; rewrite H; reflexivity.
+Qed.
+
+(* ------------------------------------------------------------------ never a crash *)
+Ltac crush_matches :=
+  repeat match goal with
+  | |- context [match parse_float ?l ?s with _ => _ end] => destruct (parse_float l s)
+  | |- context [if ?c then _ else _] => destruct c
+  end.
+
+Lemma pow_acceptable : forall lib l r, wf l = true -> wf r = true -> acceptable (pow lib l r) = true.
+Proof.
+  intros lib l r Hl Hr. unfold pow, opd_float.
+  destruct (as_float lib l) as [| |lf]; try reflexivity.
+  destruct (as_float lib r) as [| |rf]; try reflexivity.
+  destruct l; try reflexivity. destruct r; try reflexivity.
+  rewrite Z.geb_leb. destruct (0 <=? z0) eqn:E; [|reflexivity].
+  apply Z.leb_le in E. rewrite (int_pow_correct z z0 (wf_int z Hl) E).
+  destruct (pow_fits z z0); reflexivity.
+Qed.
+
+Lemma acceptable_any_pair_l : forall lib same o l r, wf l = true -> wf r = true ->
+  acceptable (binop_eval lib same o l r) = true.
+Proof.
+  intros lib same o l r Hl Hr.
+  destruct o; cbn [binop_eval].
+  - unfold add. destruct l, r; cbn; crush_matches; reflexivity.
+  - unfold sub, opd_float, opd_int. destruct l, r; cbn; crush_matches; reflexivity.
+  - unfold mul, opd_float, opd_int. destruct l, r; cbn; crush_matches; reflexivity.
+  - unfold quo, opd_float. destruct l, r; cbn; crush_matches; reflexivity.
+  - unfold rem, opd_int. destruct l, r; cbn; crush_matches; reflexivity.
+  - apply pow_acceptable; assumption.
+  - reflexivity.
+  - reflexivity.
+  - reflexivity.
+  - unfold shl, opd_int. destruct l, r; cbn; crush_matches; reflexivity.
+  - unfold shr, opd_int. destruct l, r; cbn; crush_matches; reflexivity.
+  - destruct (eq_ne_compl_l lib same l r) as [b [H _]]. rewrite H. reflexivity.
+  - destruct (eq_ne_compl_l lib same l r) as [b [_ H]]. rewrite H. reflexivity.
+  - reflexivity.
+  - reflexivity.
+  - destruct (rel_bool_l lib RLt l r) as [b H]. rewrite H. reflexivity.
+  - destruct (rel_bool_l lib RLe l r) as [b H]. rewrite H. reflexivity.
+  - destruct (rel_bool_l lib RGt l r) as [b H]. rewrite H. reflexivity.
+  - destruct (rel_bool_l lib RGe l r) as [b H]. rewrite H. reflexivity.
+  - unfold cmp. destruct l, r; reflexivity.
+  - unfold logic_and. rewrite !as_bool_truthy. destruct (ref_truthy l); reflexivity.
+  - unfold logic_or. rewrite !as_bool_truthy. destruct (ref_truthy l); reflexivity.
+  - reflexivity.
+Qed.
+
+Lemma acceptable_unop_l : forall lib o v, acceptable (unop_eval lib o v) = true.
+Proof.
+  intros lib o v; destruct o; unfold unop_eval.
+  - destruct v; cbn; crush_matches; reflexivity.
+  - rewrite as_bool_truthy. reflexivity.
+  - destruct v; reflexivity.
+Qed.
+
+(* ------------------------------------------------------------------ integer results are 64-bit *)
+From V.C03 Require Import ProofsBits.
+
+Lemma f2i_range : forall f, in_range (f2i f) = true.
+Proof.
+  intro f; unfold f2i. destruct (Prim2SF f); try reflexivity.
+  match goal with |- context [if in_range ?r then _ else _] => destruct (in_range r) eqn:E end;
+    [exact E | reflexivity].
+Qed.
+Lemma as_int_range : forall v z, wf v = true -> as_int v = Conv z -> in_range z = true.
+Proof.
+  intros v z Hw H; destruct v; try discriminate; cbn in H; injection H as <-;
+    [reflexivity | exact Hw | apply f2i_range].
+Qed.
+Lemma to_int_or_zero_range : forall v, wf v = true -> in_range (to_int_or_zero v) = true.
+Proof. intros v Hw; destruct v; try reflexivity; [exact Hw | apply f2i_range]. Qed.
+Lemma rem_range : forall a b, in_range a = true -> in_range b = true -> b <> 0 -> in_range (Z.rem a b) = true.
+Proof.
+  intros a b Ha Hb Hn. apply in_range_iff in Ha, Hb. apply in_range_iff.
+  pose proof (Z.rem_bound_abs a b Hn). lia.
+Qed.
+Lemma shiftr_range : forall a k, in_range a = true -> 0 <= k -> in_range (Z.shiftr a k) = true.
+Proof.
+  intros a k Ha Hk. apply in_range_iff in Ha. apply in_range_iff.
+  rewrite Z.shiftr_div_pow2 by exact Hk.
+  assert (Hd : 0 < 2 ^ k) by (apply Z.pow_pos_nonneg; lia).
+  pose proof (Z.div_mod a (2 ^ k) ltac:(lia)) as Hdm.
+  pose proof (Z.mod_pos_bound a (2 ^ k) Hd) as Hm.
+  nia.
+Qed.
+Lemma sign3_range : forall a b, in_range (sign3 a b) = true.
+Proof. intros [|] [|]; reflexivity. Qed.
+Lemma zpow_fits_range : forall a b, pow_fits a b = true -> in_range (zpow a b) = true.
+Proof.
+  intros a b; unfold pow_fits, zpow.
+  destruct (Z.abs a <=? 1) eqn:E.
+  - apply Z.leb_le in E. intros _.
+    destruct (a =? 0) eqn:E0; [destruct (b =? 0); reflexivity|].
+    destruct (a =? 1) eqn:E1; [reflexivity|].
+    destruct (a =? -1) eqn:E2; [destruct (Z.even b); reflexivity|].
+    apply Z.eqb_neq in E0, E1, E2. lia.
+  - apply Z.leb_gt in E. destruct (b <? 64); [|discriminate]. intro H.
+    replace (a =? 0) with false by (symmetry; apply Z.eqb_neq; lia).
+    replace (a =? 1) with false by (symmetry; apply Z.eqb_neq; lia).
+    replace (a =? -1) with false by (symmetry; apply Z.eqb_neq; lia).
+    exact H.
+Qed.
+
+Ltac split_ifs H :=
+  repeat match type of H with
+  | context [match parse_float ?l ?s with _ => _ end] => destruct (parse_float l s)
+  | context [if ?c then _ else _] => destruct c eqn:?
+  end.
+
+Lemma int_results_in_range_l : forall lib same o l r z, wf l = true -> wf r = true ->
+  binop_eval lib same o l r = Val (VInt z) -> in_range z = true.
+Proof.
+  intros lib same o l r z Hl Hr H.
+  destruct o; cbn [binop_eval] in H.
+  - unfold add in H. destruct l, r; cbn -[wrap64 Z.add Z.sub Z.mul] in H; split_ifs H; try discriminate;
+      injection H as <-; apply wrap64_range.
+  - unfold sub, opd_float, opd_int in H. destruct l, r; cbn -[wrap64 Z.add Z.sub Z.mul] in H; split_ifs H; try discriminate;
+      injection H as <-; apply wrap64_range.
+  - unfold mul, opd_float, opd_int in H. destruct l, r; cbn -[wrap64 Z.add Z.sub Z.mul] in H; split_ifs H; try discriminate;
+      injection H as <-; apply wrap64_range.
+  - destruct (quo_is_float_l lib l r _ H) as [f Hf]; discriminate.
+  - unfold rem, opd_int in H.
+    destruct l; try discriminate;
+      (destruct (as_int r) as [| |ri] eqn:Er; cbn in H; try discriminate;
+       destruct (ri =? 0) eqn:E0; try discriminate; injection H as <-;
+       apply Z.eqb_neq in E0; apply rem_range;
+       [first [exact Hl | apply f2i_range] | exact (as_int_range r ri Hr Er) | exact E0]).
+  - unfold pow, opd_float in H.
+    destruct (as_float lib l) as [| |lf]; try discriminate.
+    destruct (as_float lib r) as [| |rf]; try discriminate.
+    destruct l; try discriminate; destruct r; try discriminate.
+    rewrite Z.geb_leb in H. destruct (0 <=? z1) eqn:E; [|discriminate].
+    apply Z.leb_le in E. rewrite (int_pow_correct z0 z1 (wf_int z0 Hl) E) in H.
+    destruct (pow_fits z0 z1) eqn:Ef; [|discriminate].
+    injection H as <-. apply zpow_fits_range; exact Ef.
+  - injection H as <-. apply land_in_range; apply to_int_or_zero_range; assumption.
+  - injection H as <-. apply lor_in_range; apply to_int_or_zero_range; assumption.
+  - injection H as <-. apply lxor_in_range; apply to_int_or_zero_range; assumption.
+  - unfold shl, opd_int in H.
+    destruct (as_int l) as [| |li]; try discriminate. destruct (as_int r) as [| |ri]; try discriminate.
+    destruct (ri <? 0); try discriminate. injection H as <-.
+    destruct (ri >=? 64); [reflexivity | apply wrap64_range].
+  - unfold shr, opd_int in H.
+    destruct (as_int l) as [| |li] eqn:El; try discriminate. destruct (as_int r) as [| |ri]; try discriminate.
+    destruct (ri <? 0) eqn:E; try discriminate. injection H as <-. apply Z.ltb_ge in E.
+    apply shiftr_range; [exact (as_int_range l li Hl El) | lia].
+  - destruct (eq_ne_compl_l lib same l r) as [b [Hb _]]. rewrite Hb in H. discriminate.
+  - destruct (eq_ne_compl_l lib same l r) as [b [_ Hb]]. rewrite Hb in H. discriminate.
+  - discriminate.
+  - discriminate.
+  - destruct (rel_bool_l lib RLt l r) as [b Hb]. rewrite Hb in H. discriminate.
+  - destruct (rel_bool_l lib RLe l r) as [b Hb]. rewrite Hb in H. discriminate.
+  - destruct (rel_bool_l lib RGt l r) as [b Hb]. rewrite Hb in H. discriminate.
+  - destruct (rel_bool_l lib RGe l r) as [b Hb]. rewrite Hb in H. discriminate.
+  - unfold cmp, compare_values, compare_floats in H.
+    destruct l, r; injection H as <-; try reflexivity; try apply sign3_range.
+  - unfold logic_and in H. rewrite !as_bool_truthy in H. destruct (ref_truthy l); discriminate.
+  - unfold logic_or in H. rewrite !as_bool_truthy in H. destruct (ref_truthy l); discriminate.
+  - discriminate.
+Qed.
+
+(* ------------------------------------------------------------------ the laws do fail on the recorded pairs *)
+Lemma eq_sym_refuted_l : forall lib,
+  eq lib false (VStr "1") (VInt 1) = Val (VBool true) /\ eq lib false (VInt 1) (VStr "1") = Val (VBool false).
+Proof. intro lib; split; reflexivity. Qed.
+Lemma cmp_lt_gt_refuted_l : forall lib,
+  cmp VNull (VInt 0) = Val (VInt (-1)) /\ rel lib RLt VNull (VInt 0) = Val (VBool false).
+Proof. intro lib; split; reflexivity. Qed.
